@@ -1,5 +1,7 @@
 // LOAD world (C17, C10): loaders and parsers behind the simulated file store.  DESIGN.md section 6.
 #include "dec.h"
+#include <dirent.h>
+#include <sys/resource.h>
 #include <set>
 #include <sstream>
 #include <algorithm>
@@ -328,6 +330,30 @@ static std::string mutate_text(Rng &r, std::string t, const std::string &kind, s
     return t;
 }
 
+static int64_t count_fds()
+{
+    int64_t n = 0;
+    if (DIR *dp = opendir("/proc/self/fd")) {
+        while (readdir(dp))
+            n++;
+        closedir(dp);
+    }
+    return n;
+}
+static int highest_fd()
+{
+    int hi = -1;
+    if (DIR *dp = opendir("/proc/self/fd")) {
+        while (struct dirent *e = readdir(dp)) {
+            int v = atoi(e->d_name);
+            if (e->d_name[0] >= '0' && e->d_name[0] <= '9' && v > hi)
+                hi = v;
+        }
+        closedir(dp);
+    }
+    return hi;
+}
+
 struct LoadWorld : World {
     const char *name() const override { return "load"; }
     std::vector<std::string> properties() const override { return { "C17", "C10" }; }
@@ -372,6 +398,13 @@ struct LoadWorld : World {
             ops.push(j);
         }
         p.set("ops", ops);
+        return p;
+    }
+
+    static Json with_store(Json p)
+    {
+        p.set("store", "mmap");
+        p.set("repeat", 12);
         return p;
     }
 
@@ -511,8 +544,10 @@ struct LoadWorld : World {
             real.push(f);
         j.set("real", real);
         Json stub = Json::array();
-        stub.push("src/mmio.c -> simulated file store (mmio_file_* and fopen wrapped at link time); real mmap is never used, so 'with/without memory mapping' collapses to "
-                  "file-store images (decoder_init) vs caller buffers (*_s3file entry points)");
+        real.push("src/mmio.c (one plan in five and 4 edge plans per model file: the faulted image is a memory-backed file handed to the real open/fstat/mmap/close, the refused load "
+                  "repeated 12 times under a budget of 10 spare descriptors)");
+        stub.push("src/mmio.c in the other plans -> simulated file store (mmio_file_* and fopen wrapped at link time) with exact-size heap images, where one byte past the file is a "
+                  "sanitizer error (a real mapping is padded to the page and would hide it)");
         j.set("stub", stub);
         return j;
     }
@@ -678,6 +713,12 @@ struct LoadWorld : World {
             for (int64_t c : cuts)
                 if (c >= 0 && c < n)
                     critical.push_back(plan_with("en", { fault("en", file, "truncate", c, 0) }, "init", lda));
+            // the same edges through the real memory-mapping layer (src/mmio.c over a memory-backed file) under a tight
+            // descriptor budget: a refused load must give back what it opened, or the intact model no longer loads
+            for (int64_t c : { (int64_t)0, (int64_t)1, n - 1 })
+                if (c >= 0 && c < n)
+                    critical.push_back(with_store(plan_with("en", { fault("en", file, "truncate", c, 0) }, c == 1 ? "create_reinit" : "init", lda)));
+            critical.push_back(with_store(plan_with("en", { fault("en", file, "enoent", 0, 0) }, "init", lda)));
         }
     }
 
@@ -704,6 +745,8 @@ struct LoadWorld : World {
         std::string via = r.pick(vias);
         if (lda)
             via = "init";
+        if (via != "s3file" && r.chance(0.2))
+            return with_store(plan_with(model, faults, via, lda));
         return plan_with(model, faults, via, lda);
     }
 
@@ -1001,6 +1044,24 @@ struct LoadWorld : World {
         std::vector<Buf> keep;
         bool inited = false;
         const auto &ops = plan["ops"].a;
+        // "with memory mapping": the faulted images go through the real src/mmio.c, the refused load is repeated, and the
+        // process may open only 10 descriptors more than it holds now -- what a refused load keeps open is then missing
+        // when the intact model is loaded afterwards (the property's last clause), with no oracle of our own added
+        const bool real_store = plan.gets("store") == "mmap" && via != "s3file";
+        const int repeat = real_store ? (int)std::max<int64_t>(1, plan.geti("repeat", 1)) : 1;
+        struct rlimit saved_lim;
+        bool lim_set = false;
+        vfs::real_store(real_store);
+        if (real_store) {
+            int hi = highest_fd();
+            if (hi >= 0 && getrlimit(RLIMIT_NOFILE, &saved_lim) == 0) {
+                struct rlimit l = saved_lim;
+                l.rlim_cur = std::min<rlim_t>(saved_lim.rlim_cur, (rlim_t)hi + 1 + 10);
+                lim_set = setrlimit(RLIMIT_NOFILE, &l) == 0;
+            }
+            out.probes["load.real_mmap_layer"]++;
+        }
+        const int64_t fds_before = real_store ? count_fds() : 0;
         for (size_t k = 0; k < ops.size(); ++k) {
             const Json &op = ops[k];
             ctx.at((int)k);
@@ -1018,6 +1079,15 @@ struct LoadWorld : World {
             } else if (o == "init") {
                 inited = true;
                 ctx.set_note("init");
+                for (int rep = 1; rep < repeat; ++rep) { // the same (refused) load, again and again
+                    decoder_t *dr = via == "create_reinit" ? decoder_create(model_config(model, lda)) : decoder_init(model_config(model, lda));
+                    bool loaded = dr != nullptr;
+                    if (dr && via == "create_reinit")
+                        loaded = decoder_reinit(dr, NULL) >= 0;
+                    decoder_free(dr);
+                    if (loaded)
+                        break; // the damage landed in payload: not a refused load, nothing to repeat
+                }
                 if (via == "s3file")
                     d = init_via_s3file(model, keep);
                 else if (via == "create_reinit") {
@@ -1076,6 +1146,14 @@ struct LoadWorld : World {
         for (auto &kv : vfs::fired())
             out.faults[kv.first] += kv.second;
         vfs::clear_faults();
+        if (real_store) {
+            out.probes["load.real_mmap_opens"] += vfs::real_maps();
+            if (count_fds() != fds_before)
+                out.probes["load.descriptor_count_changed"]++; // reported as reach, decided through the canary above
+            if (lim_set)
+                setrlimit(RLIMIT_NOFILE, &saved_lim);
+            vfs::real_store(false);
+        }
         int64_t fired = 0;
         for (auto &kv : out.faults)
             fired += kv.second;
